@@ -200,6 +200,7 @@ func Format(input []byte) []byte {
 				// white space: a quote right after it opens a string
 				space = true
 				continued = true
+				heredocEscaped = false
 			}
 			continue
 		}
